@@ -204,6 +204,9 @@ class VirtualWallClock:
 WALL = VirtualWallClock()
 
 
+RETRY_KEY_INDEX = [0]
+
+
 def install_seams():
     import os as real_os
 
@@ -255,10 +258,19 @@ def install_seams():
     tls.ec = _Shim(real_ec, generate_private_key=ec_generate, ECDSA=ecdsa)
     tls.utcnow = WALL
 
-    # retry token handler: fixture RSA key instead of generating one (80 ms, random)
-    with open(os.path.join(FIXTURES, "retry_rsa.key"), "rb") as f:
-        retry_key = serialization.load_pem_private_key(f.read(), password=None)
-    retry.rsa = _Shim(real_rsa, generate_private_key=lambda **kw: retry_key)
+    # retry token handler: fixture RSA keys instead of generating one (80 ms, random); successive handlers of
+    # one run get different keys, as they would in reality (RETRY_KEY_INDEX is reset at the start of a run)
+    retry_keys = []
+    for fn in ("retry_rsa.key", "retry_rsa2.key"):
+        with open(os.path.join(FIXTURES, fn), "rb") as f:
+            retry_keys.append(serialization.load_pem_private_key(f.read(), password=None))
+
+    def retry_generate(**kw):
+        key = retry_keys[RETRY_KEY_INDEX[0] % len(retry_keys)]
+        RETRY_KEY_INDEX[0] += 1
+        return key
+
+    retry.rsa = _Shim(real_rsa, generate_private_key=retry_generate)
 
     # stream service order must not depend on id(): _write_application builds a set
     stream.QuicStream.__hash__ = lambda self: hash(self.stream_id)
